@@ -58,13 +58,14 @@ type verifC06Snap struct {
 	nodeSvcs map[string]int    // peer|node -> instances
 	checks   map[string]string // peer|node|check -> serviceID \x00 rendering
 	ces      map[string]bool
+	dests    map[string]bool // service-defaults entries that carry a Destination
 	pqs      map[string]bool
 	links    map[string]bool // gateway kind|gateway|service
 }
 
 func verifC06TakeSnap(s *state.Store) *verifC06Snap {
 	sn := &verifC06Snap{kv: map[string]bool{}, nodes: map[string]bool{}, nodeIDs: map[string]string{}, inst: map[string]string{}, svcCount: map[string]int{},
-		nodeSvcs: map[string]int{}, checks: map[string]string{}, ces: map[string]bool{}, pqs: map[string]bool{}, links: map[string]bool{}}
+		nodeSvcs: map[string]int{}, checks: map[string]string{}, ces: map[string]bool{}, dests: map[string]bool{}, pqs: map[string]bool{}, links: map[string]bool{}}
 	_ = s.WalkAllTables(func(table string, item interface{}) bool {
 		switch table {
 		case "kvs":
@@ -84,6 +85,9 @@ func verifC06TakeSnap(s *state.Store) *verifC06Snap {
 		case "config-entries":
 			e := item.(structs.ConfigEntry)
 			sn.ces[e.GetKind()+"/"+e.GetName()] = true
+			if sd, ok := e.(*structs.ServiceConfigEntry); ok && sd.Destination != nil {
+				sn.dests[sd.Name] = true
+			}
 		case "gateway-services":
 			g := item.(*structs.GatewayService)
 			sn.links[string(g.GatewayKind)+"|"+g.Gateway.Name+"|"+g.Service.Name] = true
@@ -129,6 +133,11 @@ func verifC06NewStore(f verifkit.F) *state.Store {
 	s := state.NewStateStore(nil)
 	if err := s.CASetConfig(5, &structs.CAConfiguration{Provider: "consul", ClusterID: "11111111-2222-3333-4444-555555555555"}); err != nil {
 		f.Fatalf("CASetConfig: %v", err)
+	}
+	// the leader migrates intentions to config entries at start-up and records it in the system metadata; without the
+	// marker the store answers intention queries from the (empty) legacy table
+	if err := s.SystemMetadataSet(6, &structs.SystemMetadataEntry{Key: structs.SystemMetadataIntentionFormatKey, Value: structs.SystemMetadataIntentionFormatConfigValue}); err != nil {
+		f.Fatalf("SystemMetadataSet: %v", err)
 	}
 	return s
 }
@@ -252,6 +261,7 @@ const (
 	verifC06KeyTreeDelete   = "C06/kv-delete-tree-tombstone-misses-deeper-prefix"
 	verifC06KeyConnEmptied  = "C06/connect-set-emptied-without-extinction-index-regress"
 	verifC06KeyConnExtinct  = "C06/connect-result-name-extinct-while-others-remain"
+	verifC06KeyIxnDestKind  = "C06/intention-source-match-misses-destination-kind-change"
 	verifC06KeyNodeIDGone   = "C06/node-lookup-by-id-after-id-removed-index-regress"
 	verifC06KeyCatalogConn  = "C06/catalog-connect-index-ignores-proxy-services"
 )
@@ -339,6 +349,18 @@ func verifC06RootCause(q *verifC06Query, fk string, op *vs.Op, snapB, snapA *ver
 				if strings.Contains(b.Res, `"Service":"`+name+`"`) && !strings.Contains(a.Res, `"Service":"`+name+`"`) {
 					return verifC06KeyConnExtinct
 				}
+			}
+		}
+	}
+	// (9) intention match by SOURCE leaves out intentions whose destination is a "destination" (service-defaults with
+	// Destination and no catalog instance); that kind is read without a watch and catalog changes are not covered by
+	// the config-entries index the query reports
+	if q.Fam == "IntentionMatch" && strings.HasPrefix(q.Arg, "source=") && (fk == "changed-not-woken" || fk == "changed-index-not-advanced") {
+		excluded := func(sn *verifC06Snap, name string) bool { return sn.svcCount["|"+name] == 0 && sn.dests[name] }
+		for _, name := range append([]string{"consul"}, vs.ServiceNames...) {
+			if excluded(snapB, name) != excluded(snapA, name) &&
+				(strings.Contains(b.Res, `"DestinationName":"`+name+`"`) || strings.Contains(a.Res, `"DestinationName":"`+name+`"`)) {
+				return verifC06KeyIxnDestKind
 			}
 		}
 	}
@@ -606,7 +628,7 @@ func TestVerifC06Blocking(t *testing.T) {
 	rec := verifkit.For("C06")
 	defer rec.Flush()
 	maxSteps := verifkit.EnvInt("VERIF_C06_STEPS", 40)
-	rec.SetExtra("panel_queries", int64(len(verifC06Panel())))
+	rec.SetExtra("panel_queries", fmt.Sprint(len(verifC06Panel())))
 	rapid.Check(t, func(t *rapid.T) {
 		c := rec.NewCase()
 		n := rapid.IntRange(8, maxSteps).Draw(t, "steps")
@@ -658,6 +680,12 @@ func verifC06Witnesses() map[string]verifC06Witness {
 		_ = e.Normalize()
 		return e
 	}
+	ixn := &structs.ServiceIntentionsConfigEntry{Kind: structs.ServiceIntentions, Name: "db",
+		Sources: []*structs.SourceIntention{{Name: "api", Action: structs.IntentionActionAllow}}}
+	_ = ixn.Normalize()
+	destDefaults := &structs.ServiceConfigEntry{Kind: structs.ServiceDefaults, Name: "db", Protocol: "tcp",
+		Destination: &structs.DestinationConfig{Addresses: []string{"example.com"}, Port: 443}}
+	_ = destDefaults.Normalize()
 	native := plain("web")
 	native.Connect.Native = true
 	noID := reg(12, "n1", "", nil)
@@ -709,6 +737,11 @@ func verifC06Witnesses() map[string]verifC06Witness {
 			vs.NewDereg(vs.DeregService, 12, "n1", "api-1", ""),
 			reg(13, "n1", "", native),
 			reg(14, "n1", "", plain("web")),
+		}},
+		// IntentionMatch(source=api): [api->db] -> [] , index 11 -> 12 but no watch fires
+		"witness-intention-destination-kind": {verifC06KeyIxnDestKind, []*vs.Op{
+			vs.NewConfig(vs.ConfigSet, 11, structs.ConfigEntryUpsert, ixn),
+			vs.NewConfig(vs.ConfigSet, 12, structs.ConfigEntryUpsert, destDefaults),
 		}},
 		// CheckConnectServiceNodes(web): [web-proxy-1, term-gw-1] index 13 -> [term-gw-1] index 12
 		"witness-connect-name-extinct": {verifC06KeyConnExtinct, []*vs.Op{
